@@ -14,7 +14,7 @@ pub struct AsyncProdIter<'buf, B: MutRB> {
     inner: ProdIter<'buf, B>,
     waker: Option<Waker>
 }
-unsafe impl<B: ConcurrentRB + MutRB<Item = T>, T> Send for AsyncProdIter<'_, B> {}
+unsafe impl<B: ConcurrentRB + MutRB<Item = T>, T: Send> Send for AsyncProdIter<'_, B> {}
 
 impl<'buf, B: MutRB<Item = T>, T> AsyncIterator for AsyncProdIter<'buf, B> {
     type I = ProdIter<'buf, B>;
